@@ -26,6 +26,12 @@ theorem aget_aset_ite {β : Type} [Inhabited β] (a : Array β) (i j : Nat) (v :
     · simp [hi, aget, aset, Array.setIfInBounds]
   · simp [hj, aget_aset_other _ _ _ _ hj]
 
+theorem aget_aset_pos {β : Type} [Inhabited β] {a : Array β} {i j : Nat} (v : β) (hc : j = i ∧ i < a.size) :
+    aget (aset a i v) j = v := by rw [aget_aset_ite, if_pos hc]
+
+theorem aget_aset_neg {β : Type} [Inhabited β] {a : Array β} {i j : Nat} (v : β) (hc : ¬ (j = i ∧ i < a.size)) :
+    aget (aset a i v) j = aget a j := by rw [aget_aset_ite, if_neg hc]
+
 theorem aget_lt_of_ne_default {β : Type} [Inhabited β] (a : Array β) (i : Nat) (h : aget a i ≠ default) :
     i < a.size := by
   by_contra hi
@@ -189,12 +195,13 @@ theorem invA_init (inp : EdgeInput α) (n m : Nat) : InvA inp (Data.init n m : D
     simp [Data.init, this] at h
   · intro f hf; simp [Data.init] at hf
 
-/-- What a successful `removeEdge` on an unphased individual does. -/
-theorem removeEdge_some {i : Nat} {D D' : Data α} {e : Nat} {left : α}
+/-- What a successful `removeEdge` on an unphased individual does (with which entry of the pair survived). -/
+theorem removeEdge_some_strong {i : Nat} {D D' : Data α} {e : Nat} {left : α}
     (h : removeEdge (some i) D e left = some D') :
     ((aget D.iedges i).1 = some e ∨ (aget D.iedges i).2 = some e) ∧
     ((D' = { D with iedges := aset D.iedges i (none, none) }) ∨
-     ∃ s', ((aget D.iedges i).1 = some s' ∨ (aget D.iedges i).2 = some s') ∧
+     ∃ s', (((aget D.iedges i).2 = some e ∧ (aget D.iedges i).1 = some s') ∨
+            (¬ (aget D.iedges i).2 = some e ∧ (aget D.iedges i).2 = some s')) ∧
        D' = { D with
           iedges := aset D.iedges i (some s', none)
           flushed := D.flushed ++ [{ id := aget D.iblock i, e0 := e, e1 := s', cnt := aget D.icnt i,
@@ -212,15 +219,35 @@ theorem removeEdge_some {i : Nat} {D D' : Data α} {e : Nat} {left : α}
       · left; cases h; rfl
       · rename_i s' hs
         right
-        exact ⟨s', Or.inl hs, by cases h; rfl⟩
+        exact ⟨s', Or.inl ⟨hv, hs⟩, by cases h; rfl⟩
     · simp only [if_neg hv] at h
       split at h
       · left; cases h; rfl
       · rename_i s' hs
         right
-        exact ⟨s', Or.inr hs, by cases h; rfl⟩
+        exact ⟨s', Or.inr ⟨hv, hs⟩, by cases h; rfl⟩
   · simp only [if_neg hg] at h
     cases h
+
+/-- What a successful `removeEdge` on an unphased individual does. -/
+theorem removeEdge_some {i : Nat} {D D' : Data α} {e : Nat} {left : α}
+    (h : removeEdge (some i) D e left = some D') :
+    ((aget D.iedges i).1 = some e ∨ (aget D.iedges i).2 = some e) ∧
+    ((D' = { D with iedges := aset D.iedges i (none, none) }) ∨
+     ∃ s', ((aget D.iedges i).1 = some s' ∨ (aget D.iedges i).2 = some s') ∧
+       D' = { D with
+          iedges := aset D.iedges i (some s', none)
+          flushed := D.flushed ++ [{ id := aget D.iblock i, e0 := e, e1 := s', cnt := aget D.icnt i,
+                                     span := (aget D.ipos i).map (fun p => left - p) }]
+          ipos := aset D.ipos i none
+          iblock := aset D.iblock i none
+          icnt := aset D.icnt i 0 }) := by
+  obtain ⟨hg, h1 | ⟨s', hs', h2⟩⟩ := removeEdge_some_strong h
+  · exact ⟨hg, Or.inl h1⟩
+  · refine ⟨hg, Or.inr ⟨s', ?_, h2⟩⟩
+    rcases hs' with ⟨_, h3⟩ | ⟨_, h3⟩
+    · exact Or.inl h3
+    · exact Or.inr h3
 
 /-- What a successful `insertEdge` on an unphased individual does. -/
 theorem insertEdge_some {i : Nat} {D D' : Data α} {e : Nat} {left : α}
